@@ -940,4 +940,100 @@ theorem foldl_addKey_mem (ns : List Nat) : ∀ (ks : List Nat) (x : Nat), x ∈ 
   | cons n ns ih => intro ks x h; simp only [List.foldl_cons]; exact ih _ x (addKey_mem ks n x h)
 
 
+/-! ### include / dependency structure -/
+
+theorem compileStmts_noLeak (cf : Nat → Except PyExc Unit) (hcf : ∀ g, noLeak (cf g) = true) :
+    ∀ (stmts : List Stmt), (∀ r, Stmt.leaf r ∈ stmts → noLeak r = true) → noLeak (compileStmts cf stmts) = true := by
+  intro stmts
+  induction stmts with
+  | nil => intro _; rfl
+  | cons st rest ih =>
+    intro hl
+    have hrest : ∀ r, Stmt.leaf r ∈ rest → noLeak r = true := fun r hr => hl r (List.mem_cons_of_mem _ hr)
+    cases st with
+    | file g =>
+      simp only [compileStmts]
+      have := hcf g
+      cases hg : cf g with
+      | ok u => exact ih hrest
+      | error e => rw [hg] at this; simpa [noLeak] using this
+    | leaf r =>
+      simp only [compileStmts]
+      have := hl r (List.mem_cons_self)
+      cases r with
+      | ok u => exact ih hrest
+      | error e => simpa [noLeak] using this
+
+theorem compileFileG_noLeak (fs : Files)
+    (hleaf : ∀ g stmts, fs g = some stmts → ∀ r, Stmt.leaf r ∈ stmts → noLeak r = true) :
+    ∀ (budget f : Nat), noLeak (compileFileG fs budget f) = true := by
+  intro budget
+  induction budget with
+  | zero => intro f; simp only [compileFileG]; split <;> rfl
+  | succ b ih =>
+    intro f
+    simp only [compileFileG]
+    split
+    · rfl
+    · next stmts hs => exact compileStmts_noLeak _ (ih) stmts (hleaf f stmts hs)
+
+def selfIncluding : Files := fun _ => some [Stmt.file 0]
+
+theorem selfIncluding_unguarded : ∀ fuel, compileFileU selfIncluding fuel 0 = none := by
+  intro fuel
+  induction fuel with
+  | zero => simp [compileFileU]
+  | succ n ih => simp [compileFileU, selfIncluding, compileFileU.go] at ih ⊢; simp [selfIncluding, ih]
+
+theorem selfIncluding_guarded : ∀ b, compileFileG selfIncluding b 0 = .error .mofDependencyError := by
+  intro b
+  induction b with
+  | zero => rfl
+  | succ n ih =>
+    have : compileFileG selfIncluding (n + 1) 0 = compileStmts (compileFileG selfIncluding n) [Stmt.file 0] := rfl
+    rw [this]; simp [compileStmts, ih]
+
+theorem go_agrees (fs : Files) (fuel : Nat) (cf : Nat → Except PyExc Unit)
+    (hcf : ∀ g r, compileFileU fs fuel g = some r → cf g = r) :
+    ∀ (stmts : List Stmt) (r : Except PyExc Unit), compileFileU.go fs fuel stmts = some r → compileStmts cf stmts = r := by
+  intro stmts
+  induction stmts with
+  | nil => intro r h; simp [compileFileU.go] at h; simp [compileStmts, h]
+  | cons st rest ih =>
+    intro r h
+    cases st with
+    | file g =>
+      simp only [compileFileU.go] at h
+      cases hg : compileFileU fs fuel g with
+      | none => simp [hg] at h
+      | some rg =>
+        have := hcf g rg hg
+        cases rg with
+        | ok u => simp [hg] at h; simp [compileStmts, this]; exact ih r h
+        | error e => simp [hg] at h; subst h; simp [compileStmts, this]
+    | leaf x =>
+      cases x with
+      | ok u => simp only [compileFileU.go] at h; simp only [compileStmts]; exact ih r h
+      | error e =>
+        simp only [compileFileU.go, Option.some.injEq] at h
+        rw [← h]; rfl
+
+theorem guard_conservative (fs : Files) : ∀ (fuel budget f : Nat) (r : Except PyExc Unit),
+    compileFileU fs fuel f = some r → fuel ≤ budget → compileFileG fs budget f = r := by
+  intro fuel
+  induction fuel with
+  | zero => intro budget f r h; simp [compileFileU] at h
+  | succ n ih =>
+    intro budget f r h hb
+    cases budget with
+    | zero => omega
+    | succ b =>
+      simp only [compileFileU] at h
+      simp only [compileFileG]
+      cases hf : fs f with
+      | none => simp [hf] at h; simp [h]
+      | some stmts =>
+        simp only [hf] at h
+        exact go_agrees fs n (compileFileG fs b) (fun g rg hg => ih b g rg hg (by omega)) stmts r h
+
 end Pywbem.Model.MofCompile
